@@ -714,3 +714,21 @@ Lemma orig_storeno_fails : observe no_re Orig "STORE #12X" [] = ObsLoaded false.
 Proof. vm_compute. reflexivity. Qed.
 Lemma orig_nul_fails : observe no_re Orig (String (chr 0) "") [] = ObsLoadErr.
 Proof. vm_compute. reflexivity. Qed.
+
+(* ================================================================== statements and the small wrappers used by Props.v *)
+Definition loads_statement (v : variant) : Prop :=
+  forall (re : string -> string -> option bool) (d : string) (neg : bool),
+    exists b, observe re v d (tags_of neg) = ObsLoaded b.
+Definition matches_statement (v : variant) : Prop :=
+  forall (re : string -> string -> option bool) (d : string) (neg : bool),
+    observe re v d (tags_of neg) = ObsLoaded true.
+Lemma matches_refuted : ~ matches_statement Orig.
+Proof. intros H. specialize (H no_re "Acme Foo" false). cbn [tags_of] in H. rewrite orig_multiword_fails in H. discriminate. Qed.
+Lemma loads_refuted : ~ loads_statement Orig.
+Proof. intros H. destruct (H no_re (String (chr 0) "") false) as [b Hb]. cbn [tags_of] in Hb. rewrite orig_nul_fails in Hb. discriminate. Qed.
+Lemma loads_fixed : loads_statement Fixed.
+Proof. intros re d neg. exists true. apply matches_fixed. Qed.
+Lemma matches_of_source : C19Src.variant_of_source = Fixed -> matches_statement C19Src.variant_of_source.
+Proof. intros ->. exact matches_fixed. Qed.
+Lemma loads_of_source : C19Src.variant_of_source = Fixed -> loads_statement C19Src.variant_of_source.
+Proof. intros ->. exact loads_fixed. Qed.
